@@ -34,6 +34,32 @@ def _run_traces(chk: Check, behs, source, make=None, start_tid=1, **probe_kw):
     return len(traces)
 
 
+def _rules_then_queries_traces(chk, behs, rng, queries, start_tid, source):
+    """Dispatching rules are asked in every state BEFORE the queries: a rule that edits the list it was handed by a
+    memoised query (available operations) changes what the next caller of that query - and of everything derived
+    from it, the current time included - gets."""
+    from . import dsession as _ds
+    traces = []
+    for i, b in enumerate(behs):
+        s = _ds.DSession(start_tid + i, b["inst"], b["filt"], ())
+        for a in [{"a": "start"}] + list(b["hist"]):
+            if a["a"] == "D":
+                s.dispatch(a["j"], a["p"], a["m"])
+            elif a["a"] == "Reset":
+                s.reset()
+            elif a["a"] != "start":
+                continue
+            if not s.dispatcher.schedule.is_complete():
+                s.score_rule(rng.sample(["spt_score", "fcfs_score", "mwkr_score", "mor_score"], rng.randint(1, 3)))
+                if rng.random() < 0.5:
+                    s.rule_picks(rng.sample(["spt", "fcfs", "mwkr", "mor", "obs_mwkr"], 2))
+            for q in queries(rng):
+                s.query(q)
+        traces.append(s.trace())
+    chk.monitor(traces, source=source)
+    return len(traces)
+
+
 def _builtin_observer_query_traces(chk, behs, rng, queries, start_tid, source):
     """The dispatcher's answers with the LIBRARY'S OWN observers subscribed (feature observers, rewards, history,
     residual graph updater - the environments' default company): an observer that writes through a memoised answer
@@ -193,8 +219,10 @@ def c05():
             s.create_builtin("UnscheduledOperationsObserver")
         traces.append(s.trace())
     chk.monitor(traces, source="unscheduled-observer-attached-mid-history")
-    _builtin_observer_query_traces(chk, behs[: _n(chk, 40, 300)] + rb[: _n(chk, 40, 300)], rng, qprobe,
-                                   base + len(traces) + 1, "queries-with-built-in-observers-subscribed")
+    k0 = _builtin_observer_query_traces(chk, behs[: _n(chk, 40, 300)] + rb[: _n(chk, 40, 300)], rng, qprobe,
+                                        base + len(traces) + 1, "queries-with-built-in-observers-subscribed")
+    _rules_then_queries_traces(chk, rb[: _n(chk, 50, 300)], rng, qprobe, base + len(traces) + k0 + 1,
+                               "queries-after-dispatching-rules-were-asked")
     return chk.finish(
         "TLC: memoisation cache as a state variable, every order of the ten memoised queries "
         "interleaved with dispatches and resets (bounded depth); traces: TLC-chosen query "
@@ -222,8 +250,10 @@ def c06():
                                simulate=f"num={_n(chk, 200, 1500)}", workers=4, depth=60)
     rb_r = [random_behaviour(rng, resets=0.12, max_jobs=4, max_ops=4, max_m=3) for _ in range(_n(chk, 100, 800))]
     n += _run_traces(chk, behs_r + rb_r, "episodes-separated-by-resets", start_tid=n + 1, query_probe=probe)
-    _builtin_observer_query_traces(chk, behs[: _n(chk, 60, 400)] + rb[: _n(chk, 40, 300)] + rb_r[: _n(chk, 30, 200)],
-                                   rng, probe, n + 1, "time-and-completed-set-with-built-in-observers-subscribed")
+    n += _builtin_observer_query_traces(chk, behs[: _n(chk, 60, 400)] + rb[: _n(chk, 40, 300)] + rb_r[: _n(chk, 30, 200)],
+                                        rng, probe, n + 1, "time-and-completed-set-with-built-in-observers-subscribed")
+    _rules_then_queries_traces(chk, rb[: _n(chk, 60, 300)] + behs[: _n(chk, 40, 200)], rng, probe, n + 1,
+                               "time-and-completed-set-after-dispatching-rules-were-asked")
     return chk.finish(
         "TLC: now' >= now and completed' >= completed for every accepted dispatch from every "
         "reachable state (no filter: all instances; filters: positive durations), now = makespan "
